@@ -518,6 +518,17 @@ TGWrite(o) ==
           /\ BrokerProcess(cur, st)
           /\ tg' = [tg EXCEPT !.st = IF st = "rel" THEN "waitrel" ELSE "waitpub"]
           /\ UNCHANGED <<retryQ, nrbe, doneReq, lost, bc>>
+       \/ /\ o = "dropReq" /\ RespTimeout /\ qos0    \* a QoS 0 message swallowed: nobody waits for anything
+          /\ faults < MaxFaults /\ faults' = faults + 1
+          /\ Observe(cur, st, g, TRUE)
+          /\ Finish("ok", "none")
+          /\ UNCHANGED bc /\ UNCHANGED bvars
+       \/ /\ o = "dropAck" /\ RespTimeout /\ qos0    \* processed; there is no acknowledgement to swallow
+          /\ faults < MaxFaults /\ faults' = faults + 1
+          /\ Observe(cur, st, g, TRUE)
+          /\ BrokerProcess(cur, st)
+          /\ Finish("ok", "none")
+          /\ UNCHANGED bc
   /\ UNCHANGED <<submitted, taskQ, tok, subEst, gen, connErr, rl, dialled>> /\ UNCHANGED hvars
 
 \* waiting for an acknowledgement that will not come: woken by Done() ...
